@@ -548,6 +548,8 @@ class HistogramND(HistogramBase):
         frequencies, errors2, missing = calculate_nd_frequencies(
             data=data, binnings=binnings, weights=weights, dtype=dtype
         )
+        if "missed" not in kwargs:
+            kwargs["missed"] = missing
         return cls(
             binnings=binnings,
             frequencies=frequencies,
